@@ -219,21 +219,37 @@ def _sig_start(text, m, blk):
     return i
 
 
-def resolve_scope(text, m, scope):
+def _scope_matches(text, m, a, b, want):
+    w = _norm(want)
+    if w.startswith('~'):
+        # `~TEXT`: the block whose header ENDS with TEXT (multi-line generic impl headers share their beginning)
+        w = w[1:].strip()
+        return [blk for blk in blocks(text, m, a, b) if blk.header.endswith(w)]
+    return [blk for blk in blocks(text, m, a, b) if blk.header.startswith(w) or
+            re.sub(r'^(pub(\([a-z]+\))? )', '', blk.header).startswith(w)]
+
+
+def resolve_scope_multi(text, m, scope):
+    """All spans the scope path denotes: every element but the last must be unique; the last one may match several
+    blocks (e.g. several `impl` blocks with the same header) -- the caller keeps the one that contains the item."""
     a, b = 0, len(text)
-    for want in scope:
-        w = _norm(want)
-        if w.startswith('~'):
-            # `~TEXT`: the block whose header ENDS with TEXT (multi-line generic impl headers share their beginning)
-            w = w[1:].strip()
-            found = [blk for blk in blocks(text, m, a, b) if blk.header.endswith(w)]
-        else:
-            found = [blk for blk in blocks(text, m, a, b) if blk.header.startswith(w) or
-                     re.sub(r'^(pub(\([a-z]+\))? )', '', blk.header).startswith(w)]
+    for k, want in enumerate(scope):
+        found = _scope_matches(text, m, a, b, want)
+        if k == len(scope) - 1:
+            if not found:
+                raise AnchorError('scope %r matched 0 blocks' % (want,))
+            return [(blk.open + 1, blk.end - 1) for blk in found]
         if len(found) != 1:
             raise AnchorError('scope %r matched %d blocks' % (want, len(found)))
         a, b = found[0].open + 1, found[0].end - 1
-    return a, b
+    return [(a, b)]
+
+
+def resolve_scope(text, m, scope):
+    spans = resolve_scope_multi(text, m, scope)
+    if len(spans) != 1:
+        raise AnchorError('scope %r matched %d blocks' % (scope[-1], len(spans)))
+    return spans[0]
 
 
 _KINDS = {
@@ -247,11 +263,8 @@ _KINDS = {
 }
 
 
-def find_item(text, scope, item, m=None):
+def _find_item_in(text, m, a, b, scope, item):
     """item = 'fn NAME' | 'struct NAME' | 'enum NAME' | 'macro NAME' | 'const NAME'."""
-    if m is None:
-        m = mask(text)
-    a, b = resolve_scope(text, m, scope)
     kind, name = item.split(None, 1)
     if kind == 'const' or kind == 'static':
         rx = re.compile(r'(?m)^[ \t]*(?:pub(?:\([a-z]+\))?\s+)?%s\s+%s\s*:' % (kind, re.escape(name)))
@@ -273,6 +286,25 @@ def find_item(text, scope, item, m=None):
         raise AnchorError('%r in scope %r matched %d items' % (item, scope, len(hits)))
     blk = hits[0]
     return Item(text, blk.hstart, _sig_start(text, m, blk), blk.open, blk.end, blk.header)
+
+
+def find_item(text, scope, item, m=None):
+    """item = 'fn NAME' | 'struct NAME' | 'enum NAME' | 'macro NAME' | 'const NAME'.  When the last scope element matches
+    several blocks, the item must exist in exactly one of them."""
+    if m is None:
+        m = mask(text)
+    spans = resolve_scope_multi(text, m, scope)
+    hits, err = [], None
+    for (a, b) in spans:
+        try:
+            hits.append(_find_item_in(text, m, a, b, scope, item))
+        except AnchorError as e:
+            err = e
+    if len(hits) == 1:
+        return hits[0]
+    if not hits:
+        raise err
+    raise AnchorError('%r found in %d blocks matching scope %r' % (item, len(hits), scope))
 
 
 def _depth(m, a, pos):
